@@ -235,6 +235,8 @@ Definition step (w : world) (a : action) : option world :=
              match attach_loop (S (length (nlog sf))) (nlog s) lh (truncate_to (nlog sf) tk k) with
              | None => None
              | Some newlog =>
+              (* NewCursorAcker refuses a cursor that starts beyond the leader's head (ErrInvalidHeadOffset) *)
+              if negb (length newlog <=? length (nlog s)) then None else
               let sf' := mkN t Follower newlog false 0 0 (ncommit sf) [] in
               let s' := mkN t (nst s) (nlog s) (nelect s) (nehead s) (nrf s)
                             (attach_commit s ((f, length newlog) :: nacked s))
